@@ -275,7 +275,7 @@ pub fn decode_idf(file: &[u8]) -> Result<IdxPic, DecErr> {
     if b.len() < 12 + 4096 + 48 {
         return err("header_truncated", format!("{} bytes", b.len()));
     }
-    // VERSION : string[4] read with BlockRead(F, VERSION, 4): length byte 4 wait -- the record is 4 bytes: #4 '1' '.' 'x'
+    // VERSION is a Pascal string[4] filled by BlockRead(F, VERSION, 4): length byte #4, then '1' '.' and the minor digit
     if b[0] != 4 || b[1] != b'1' || b[2] != b'.' || !(b[3] == b'3' || b[3] == b'4') {
         return err("version", format!("{:?}", &b[0..4]));
     }
@@ -429,4 +429,38 @@ pub fn decode_tnd(file: &[u8], limit_rows: usize) -> Result<RgbPic, DecErr> {
         }
     }
     Ok(pic)
+}
+
+/// lenient pre-scan for the fuzz parts: the largest row any position command or the running cursor reaches
+/// (signed, as the 4 bytes are; no header check) — used only to keep fuzzed files small
+pub fn tnd_max_row(file: &[u8]) -> i64 {
+    let (end, sauce) = split_sauce(file);
+    let b = &file[..end];
+    let w = sauce.map(|s| s.tinfo1 as i64).filter(|w| (1..=1000).contains(w)).unwrap_or(80);
+    let (mut x, mut y, mut max) = (0i64, 0i64, 0i64);
+    let mut i = 9;
+    while i < b.len() {
+        match b[i] {
+            1 => {
+                if i + 9 > b.len() {
+                    break;
+                }
+                y = i32::from_be_bytes([b[i + 1], b[i + 2], b[i + 3], b[i + 4]]) as i64;
+                x = i32::from_be_bytes([b[i + 5], b[i + 6], b[i + 7], b[i + 8]]) as i64;
+                max = max.max(y);
+                i += 9;
+                continue;
+            }
+            2 | 3 | 4 | 5 => i += 6,
+            6 => i += 10,
+            _ => i += 1,
+        }
+        max = max.max(y);
+        x += 1;
+        if x >= w {
+            x = 0;
+            y += 1;
+        }
+    }
+    max
 }
